@@ -372,6 +372,9 @@ impl FixedMethod {
                 } else {
                     self.buffer.push(character);
                 }
+                // Append the rest of the value if it has more than one code point.
+                let rest: String = value.chars().skip(1).collect();
+                self.buffer.push_str(&rest);
                 return;
             }
 
